@@ -353,25 +353,25 @@ impl<T: Debug + Eq + PartialEq + Clone + Default> TaggedLine<T> {
             final(self).v@.len() >= old(self).v@.len(), //@w
     {
         use self::TaggedLineElement::Str;
-
         proof { lemma_flat_str_empty(ts.tag); lemma_sw_empty(); } //@w
+
         if !ts.s.is_empty() {
             self.len += UnicodeWidthStr::width(ts.s.as_str());
             if let Some(Str(ts_prev)) = self.v.last_mut() {
                 if ts_prev.tag == ts.tag {
-                    proof { //@w[
-                        let p = old(self).v@.last()->Str_0;
-                        lemma_sw_concat(p.s@, ts.s@);
-                        lemma_flat_str_concat(p.s@, ts.s@, ts.tag);
-                    } //@w]
+                    proof { //@w
+                        let p = old(self).v@.last()->Str_0; //@w
+                        lemma_sw_concat(p.s@, ts.s@); //@w
+                        lemma_flat_str_concat(p.s@, ts.s@, ts.tag); //@w
+                    } //@w
                     ts_prev.s.push_str(&ts.s);
-                    proof { //@w[
-                        let p = old(self).v@.last()->Str_0;
-                        let q = self.v@.last()->Str_0;
-                        assert(self.v@.drop_last() =~= old(self).v@.drop_last());
-                        assert(q.s@ =~= p.s@ + ts.s@);
-                        assert(elt_some(self.v@.last()) <== elt_some(old(self).v@.last()) && str_some(ts.s@));
-                    } //@w]
+                    proof { //@w
+                        let p = old(self).v@.last()->Str_0; //@w
+                        let q = self.v@.last()->Str_0; //@w
+                        assert(self.v@.drop_last() =~= old(self).v@.drop_last()); //@w
+                        assert(q.s@ =~= p.s@ + ts.s@); //@w
+                        assert(elt_some(self.v@.last()) <== elt_some(old(self).v@.last()) && str_some(ts.s@)); //@w
+                    } //@w
                     return;
                 }
             }
@@ -414,12 +414,12 @@ impl<T: Debug + Eq + PartialEq + Clone + Default> TaggedLine<T> {
             all_some(old(self).v@) ==> all_some(final(self).v@), //@w @C01
     {
         use self::TaggedLineElement::Str;
-        proof { //@w[
-            lemma_spaces(len as nat); reveal_strlit(" ");
-            assert(" "@.len() == 1);
-            assert forall|s: Seq<char>| s.len() == len && (forall|i: int| 0 <= i < s.len() ==> s[i] == ' ') implies s =~= spaces(len as nat) by {}
-            assert(1 * len == len) by (nonlinear_arith);
-        } //@w]
+        proof { //@w
+            lemma_spaces(len as nat); reveal_strlit(" "); //@w
+            assert(" "@.len() == 1); //@w
+            assert forall|s: Seq<char>| s.len() == len && (forall|i: int| 0 <= i < s.len() ==> s[i] == ' ') implies s =~= spaces(len as nat) by {} //@w
+            assert(1 * len == len) by (nonlinear_arith); //@w
+        } //@w
         self.push(Str(TaggedString {
             s: " ".repeat(len),
             tag: tag.clone(),
@@ -443,20 +443,20 @@ impl<T: Debug + Eq + PartialEq + Clone + Default> TaggedLine<T> {
         self.len += UnicodeWidthChar::width(c).unwrap_or(0);
         if let Some(Str(ts_prev)) = self.v.last_mut() {
             if ts_prev.tag == *tag {
-                proof { //@w[
-                    let p = old(self).v@.last()->Str_0;
-                    lemma_sw_concat(p.s@, seq![c]);
-                    lemma_flat_str_concat(p.s@, seq![c], *tag);
-                    lemma_sw_one(c);
-                } //@w]
+                proof { //@w
+                    let p = old(self).v@.last()->Str_0; //@w
+                    lemma_sw_concat(p.s@, seq![c]); //@w
+                    lemma_flat_str_concat(p.s@, seq![c], *tag); //@w
+                    lemma_sw_one(c); //@w
+                } //@w
                 ts_prev.s.push(c);
-                proof { //@w[
-                    let p = old(self).v@.last()->Str_0;
-                    let q = self.v@.last()->Str_0;
-                    assert(self.v@.drop_last() =~= old(self).v@.drop_last());
-                    assert(q.s@ =~= p.s@ + seq![c]);
-                    assert(flat_str(seq![c], *tag) =~= seq![CItem::Ch(c, *tag)]);
-                } //@w]
+                proof { //@w
+                    let p = old(self).v@.last()->Str_0; //@w
+                    let q = self.v@.last()->Str_0; //@w
+                    assert(self.v@.drop_last() =~= old(self).v@.drop_last()); //@w
+                    assert(q.s@ =~= p.s@ + seq![c]); //@w
+                    assert(flat_str(seq![c], *tag) =~= seq![CItem::Ch(c, *tag)]); //@w
+                } //@w
                 return;
             }
         }
@@ -488,16 +488,16 @@ impl<T: Debug + Eq + PartialEq + Clone + Default> TaggedLine<T> {
             if ts1.tag == ts.tag {
                 // Combine into one TaggedString
                 ts1.s.insert_str(0, &ts.s);
-                proof { //@w[
-                    let p = old(self).v@[0]->Str_0;
-                    lemma_sw_concat(ts.s@, p.s@);
-                    lemma_flat_str_concat(ts.s@, p.s@, ts.tag);
-                    let q = self.v@[0]->Str_0;
-                    assert(q.s@ =~= ts.s@ + p.s@);
-                    assert(self.v@.skip(1) =~= old(self).v@.skip(1));
-                    lemma_front(old(self).v@, self.v@);
-                    assert(flat_elt(self.v@[0]) =~= flat_str(ts.s@, ts.tag) + flat_elt(old(self).v@[0]));
-                } //@w]
+                proof { //@w
+                    let p = old(self).v@[0]->Str_0; //@w
+                    lemma_sw_concat(ts.s@, p.s@); //@w
+                    lemma_flat_str_concat(ts.s@, p.s@, ts.tag); //@w
+                    let q = self.v@[0]->Str_0; //@w
+                    assert(q.s@ =~= ts.s@ + p.s@); //@w
+                    assert(self.v@.skip(1) =~= old(self).v@.skip(1)); //@w
+                    lemma_front(old(self).v@, self.v@); //@w
+                    assert(flat_elt(self.v@[0]) =~= flat_str(ts.s@, ts.tag) + flat_elt(old(self).v@[0])); //@w
+                } //@w
                 return;
             }
         }
@@ -520,22 +520,21 @@ impl<T: Debug + Eq + PartialEq + Clone + Default> TaggedLine<T> {
     {
         let items = vec_drain_all(&mut tl.v);
         for ts in it: items
-            invariant //@w[
-                tag_ok::<T>(), it.seq() == items@, items@ == old(tl).v@,
-                self.wf(), self.len == old(self).len + cwid(items@.take(it.index@)),
-                old(self).len + cwid(items@) <= usize::MAX,
-                flat(self.v@) =~= flat(old(self).v@) + flat(items@.take(it.index@)),
-                all_some(old(self).v@) && all_some(items@) ==> all_some(self.v@),
-                tl.v@.len() == 0, tl.len == old(tl).len,
-            //@w]
+            invariant //@w
+                tag_ok::<T>(), it.seq() == items@, items@ == old(tl).v@, //@w
+                self.wf(), self.len == old(self).len + cwid(items@.take(it.index@)), //@w
+                old(self).len + cwid(items@) <= usize::MAX, //@w
+                flat(self.v@) =~= flat(old(self).v@) + flat(items@.take(it.index@)), //@w
+                all_some(old(self).v@) && all_some(items@) ==> all_some(self.v@), //@w
+                tl.v@.len() == 0, tl.len == old(tl).len, //@w
         {
-            proof { //@w[
-                let k = it.index@;
-                assert(items@.take(k + 1) =~= items@.take(k).push(items@[k]));
-                lemma_flat_push(items@.take(k), items@[k]);
-                lemma_flat_concat(items@.take(k + 1), items@.skip(k + 1));
-                assert(items@.take(k + 1) + items@.skip(k + 1) =~= items@);
-            } //@w]
+            proof { //@w
+                let k = it.index@; //@w
+                assert(items@.take(k + 1) =~= items@.take(k).push(items@[k])); //@w
+                lemma_flat_push(items@.take(k), items@[k]); //@w
+                lemma_flat_concat(items@.take(k + 1), items@.skip(k + 1)); //@w
+                assert(items@.take(k + 1) + items@.skip(k + 1) =~= items@); //@w
+            } //@w
             self.push(ts);
         }
         proof { assert(items@.take(items@.len() as int) =~= items@); } //@w
@@ -601,6 +600,80 @@ struct WrappedBlock<T> {
     allow_overflow: bool,
 }
 //@end
+// ---- content view of a block (C03, C14): everything that is not a plain space, in order ----
+// (the engine itself only ever adds ' ' characters: pending whitespace, tab expansion and block padding)
+spec fn is_sp<T>(i: CItem<T>) -> bool { match i { CItem::Ch(c, _) => c == ' ', CItem::Frag(_) => false } }
+spec fn ns<T>(s: Seq<CItem<T>>) -> Seq<CItem<T>> decreases s.len() {
+    if s.len() == 0 { Seq::empty() } else if is_sp(s.last()) { ns(s.drop_last()) } else { ns(s.drop_last()).push(s.last()) }
+}
+proof fn lemma_ns_concat<T>(a: Seq<CItem<T>>, b: Seq<CItem<T>>)
+    ensures ns(a + b) =~= ns(a) + ns(b),
+    decreases b.len()
+{
+    if b.len() == 0 { assert(a + b =~= a); } else {
+        assert((a + b).drop_last() =~= a + b.drop_last());
+        lemma_ns_concat(a, b.drop_last());
+    }
+}
+proof fn lemma_ns_spaces<T>(n: nat, t: T)
+    ensures ns(flat_str(spaces(n), t)) =~= Seq::<CItem<T>>::empty(),
+    decreases n
+{
+    if n > 0 {
+        assert(flat_str(spaces(n), t).drop_last() =~= flat_str(spaces((n - 1) as nat), t));
+        lemma_ns_spaces((n - 1) as nat, t);
+    }
+}
+spec fn lines_flat<T>(t: Seq<TaggedLine<T>>) -> Seq<CItem<T>> decreases t.len() {
+    if t.len() == 0 { Seq::empty() } else { lines_flat(t.drop_last()) + flat(t.last().v@) }
+}
+// the non-space content of the finished lines followed by the current line
+#[verifier::opaque]
+spec fn content<T>(text: Seq<TaggedLine<T>>, linev: Seq<TaggedLineElement<T>>) -> Seq<CItem<T>> { ns(lines_flat(text) + flat(linev)) }
+proof fn lemma_content_append<T>(text: Seq<TaggedLine<T>>, v: Seq<TaggedLineElement<T>>, v2: Seq<TaggedLineElement<T>>, extra: Seq<CItem<T>>)
+    requires flat(v2) =~= flat(v) + extra,
+    ensures content(text, v2) =~= content(text, v) + ns(extra),
+{
+    reveal(content);
+    assert(lines_flat(text) + flat(v2) =~= (lines_flat(text) + flat(v)) + extra);
+    lemma_ns_concat(lines_flat(text) + flat(v), extra);
+}
+proof fn lemma_content_flush<T>(text: Seq<TaggedLine<T>>, l: TaggedLine<T>, v: Seq<TaggedLineElement<T>>)
+    requires ns(flat(l.v@)) =~= ns(flat(v)),
+    ensures content(text.push(l), Seq::<TaggedLineElement<T>>::empty()) =~= content(text, v),
+{
+    reveal(content);
+    assert(text.push(l).drop_last() =~= text);
+    assert(flat(Seq::<TaggedLineElement<T>>::empty()) =~= Seq::<CItem<T>>::empty());
+    assert(lines_flat(text.push(l)) + flat(Seq::<TaggedLineElement<T>>::empty()) =~= lines_flat(text) + flat(l.v@));
+    lemma_ns_concat(lines_flat(text), flat(l.v@));
+    lemma_ns_concat(lines_flat(text), flat(v));
+}
+proof fn lemma_flat_empty_te<T>() ensures flat(Seq::<TaggedLineElement<T>>::empty()) =~= Seq::<CItem<T>>::empty(), ns(Seq::<CItem<T>>::empty()) =~= Seq::<CItem<T>>::empty() {}
+proof fn lemma_ns_empty<T>() ensures ns(Seq::<CItem<T>>::empty()) =~= Seq::<CItem<T>>::empty() {}
+proof fn lemma_clone_is_copy<T: Clone + PartialEq>(a: &T, b: T)
+    requires tag_ok::<T>(), call_ensures(T::clone, (a,), b),
+    ensures *a == b,
+{}
+// pushing a string piece extends the block content by its non-space characters
+proof fn lemma_piece_pushed<T>(text: Seq<TaggedLine<T>>, v: Seq<TaggedLineElement<T>>, v2: Seq<TaggedLineElement<T>>, sub: Seq<char>, tag: T)
+    requires exists|e: TaggedLineElement<T>| flat(v2) =~= flat(v) + flat_elt(e) && (e matches TaggedLineElement::Str(ts) && ts.s@ == sub && ts.tag == tag),
+    ensures content(text, v2) =~= content(text, v) + ns(flat_str(sub, tag)),
+{
+    let e = choose|e: TaggedLineElement<T>| flat(v2) =~= flat(v) + flat_elt(e) && (e matches TaggedLineElement::Str(ts) && ts.s@ == sub && ts.tag == tag);
+    lemma_content_append(text, v, v2, flat_elt(e));
+}
+// off(s, k) == off(s, len) only for k == len (every character has at least one byte)
+proof fn lemma_off_end(s: Seq<char>, k: int)
+    requires 0 <= k <= s.len(), off(s, k) >= off(s, s.len() as int),
+    ensures k == s.len(),
+{ if k < s.len() { lemma_off_mono(s, k, s.len() as int); axiom_l8(s[k]); lemma_off_mono(s, k + 1, s.len() as int); assert(off(s, k + 1) == off(s, k) + l8(s[k])); } }
+// "no character or marker is lost": (finished lines ++ current line ++ word) has the same non-space content before and after.
+// Opaque so that callers which only need the width invariant (add_text) do not pay for the sequence algebra.
+#[verifier::opaque]
+spec fn keeps_all<T>(t0: Seq<TaggedLine<T>>, l0: Seq<TaggedLineElement<T>>, w0: Seq<TaggedLineElement<T>>, t1: Seq<TaggedLine<T>>, l1: Seq<TaggedLineElement<T>>, w1: Seq<TaggedLineElement<T>>) -> bool {
+    content(t1, l1) + ns(flat(w1)) =~= content(t0, l0) + ns(flat(w0))
+}
 // a line fits (C02): at most `width` columns; with overflow allowed the only wider line is a single over-wide character (C11)
 spec fn fits<T>(l: TaggedLine<T>, width: usize, allow: bool) -> bool { l.len <= width || (allow && l.len <= 2) }
 spec fn lines_wf<T>(t: Seq<TaggedLine<T>>) -> bool { forall|i: int| 0 <= i < t.len() ==> (#[trigger] t[i]).wf() }
@@ -661,27 +734,25 @@ impl<T: Clone + Eq + Debug + Default> WrappedBlock<T> {
             final(self).text@.len() >= old(self).text@.len(), //@w @C03 #fw_text_grows
             final(self).text@.take(old(self).text@.len() as int) =~= old(self).text@, //@w @C03 #fw_keeps_emitted_lines
             r.is_ok() ==> final(self).wordlen == 0 && no_str(final(self).word.v@), //@w @C04 @C03 #fw_word_flushed
-            // empty word: nothing happens
-            no_str(old(self).word.v@) ==> r.is_ok() && final(self).text@ == old(self).text@ && final(self).line == old(self).line && final(self).word == old(self).word //@w[ @C04 @C14 #fw_empty_word_noop
-                && final(self).wslen == old(self).wslen && final(self).spacetag == old(self).spacetag && final(self).pre_wrapped == old(self).pre_wrapped, //@w]
-            // greedy fit rule (C04): the word goes on the current line iff pending space + word fit in what is left
-            !no_str(old(self).word.v@) && old(self).wslen + old(self).wordlen <= old(self).width - old(self).line.len ==> //@w[ @C04 @C12 #fw_fits_same_line
-                r.is_ok() && final(self).text@ == old(self).text@
-                && final(self).line.len == old(self).line.len + old(self).wslen + old(self).wordlen
-                && final(self).wslen == 0 && !final(self).pre_wrapped, //@w]
-            !no_str(old(self).word.v@) && old(self).wslen + old(self).wordlen <= old(self).width - old(self).line.len && old(self).wslen > 0 ==> //@w[ @C04 @C03 @C09 #fw_fits_content_ws
-                flat(final(self).line.v@) =~= flat(old(self).line.v@) + flat_str(spaces(old(self).wslen as nat), old(self).spacetag.unwrap()) + flat(old(self).word.v@), //@w]
-            !no_str(old(self).word.v@) && old(self).wslen + old(self).wordlen <= old(self).width - old(self).line.len && old(self).wslen == 0 ==> //@w[ @C04 @C03 @C09 #fw_fits_content
-                flat(final(self).line.v@) =~= flat(old(self).line.v@) + flat(old(self).word.v@), //@w]
-            // does not fit, wrapping mode: the old line is emitted, pending whitespace is dropped
-            !no_str(old(self).word.v@) && old(self).wslen + old(self).wordlen > old(self).width - old(self).line.len && ws_mode.do_wrap_spec() && r.is_ok() ==> //@w[ @C04 #fw_wraps
-                final(self).wslen == 0 && final(self).spacetag.is_none()
-                && (!no_str(old(self).line.v@) ==> final(self).text@.len() >= old(self).text@.len() + 1 && final(self).text@[old(self).text@.len() as int].len == (if old(self).pad_blocks { old(self).width } else { old(self).line.len })), //@w]
-            // does not fit, preformatted (no wrapping): a forced break marks the block as wrapped (continuation tag)
-            !no_str(old(self).word.v@) && old(self).wslen + old(self).wordlen > old(self).width - old(self).line.len && ws_mode == WhiteSpace::Pre && r.is_ok() ==> //@w[ @C12 #fw_pre_wrapped
-                final(self).pre_wrapped, //@w]
-            !no_str(old(self).word.v@) && old(self).wslen + old(self).wordlen > old(self).width - old(self).line.len && ws_mode != WhiteSpace::Pre && r.is_ok() ==> //@w[ @C12 #fw_not_pre_wrapped
-                !final(self).pre_wrapped, //@w]
+            // flushing moves the word to the output; no character or marker is lost, duplicated or reordered (C03, C14) //@w
+            r.is_ok() ==> keeps_all(old(self).text@, old(self).line.v@, old(self).word.v@, final(self).text@, final(self).line.v@, final(self).word.v@), //@w @C03 @C14 #fw_keeps_content
+            no_str(old(self).word.v@) ==> r.is_ok() && final(self).text@ == old(self).text@ && final(self).line == old(self).line && final(self).word == old(self).word //@w @C04 @C14 #fw_empty_word_noop
+                && final(self).wslen == old(self).wslen && final(self).spacetag == old(self).spacetag && final(self).pre_wrapped == old(self).pre_wrapped, //@w @C04 @C14 #fw_empty_word_noop
+            !no_str(old(self).word.v@) && old(self).wslen + old(self).wordlen <= old(self).width - old(self).line.len ==> //@w @C04 @C12 #fw_fits_same_line
+                r.is_ok() && final(self).text@ == old(self).text@ //@w @C04 @C12 #fw_fits_same_line
+                && final(self).line.len == old(self).line.len + old(self).wslen + old(self).wordlen //@w @C04 @C12 #fw_fits_same_line
+                && final(self).wslen == 0 && !final(self).pre_wrapped, //@w @C04 @C12 #fw_fits_same_line
+            !no_str(old(self).word.v@) && old(self).wslen + old(self).wordlen <= old(self).width - old(self).line.len && old(self).wslen > 0 ==> //@w @C04 @C03 @C09 #fw_fits_content_ws
+                flat(final(self).line.v@) =~= flat(old(self).line.v@) + flat_str(spaces(old(self).wslen as nat), old(self).spacetag.unwrap()) + flat(old(self).word.v@), //@w @C04 @C03 @C09 #fw_fits_content_ws
+            !no_str(old(self).word.v@) && old(self).wslen + old(self).wordlen <= old(self).width - old(self).line.len && old(self).wslen == 0 ==> //@w @C04 @C03 @C09 #fw_fits_content
+                flat(final(self).line.v@) =~= flat(old(self).line.v@) + flat(old(self).word.v@), //@w @C04 @C03 @C09 #fw_fits_content
+            !no_str(old(self).word.v@) && old(self).wslen + old(self).wordlen > old(self).width - old(self).line.len && ws_mode.do_wrap_spec() && r.is_ok() ==> //@w @C04 #fw_wraps
+                final(self).wslen == 0 && final(self).spacetag.is_none() //@w @C04 #fw_wraps
+                && (!no_str(old(self).line.v@) ==> final(self).text@.len() >= old(self).text@.len() + 1 && final(self).text@[old(self).text@.len() as int].len == (if old(self).pad_blocks { old(self).width } else { old(self).line.len })), //@w @C04 #fw_wraps
+            !no_str(old(self).word.v@) && old(self).wslen + old(self).wordlen > old(self).width - old(self).line.len && ws_mode == WhiteSpace::Pre && r.is_ok() ==> //@w @C12 #fw_pre_wrapped
+                final(self).pre_wrapped, //@w @C12 #fw_pre_wrapped
+            !no_str(old(self).word.v@) && old(self).wslen + old(self).wordlen > old(self).width - old(self).line.len && ws_mode != WhiteSpace::Pre && r.is_ok() ==> //@w @C12 #fw_not_pre_wrapped
+                !final(self).pre_wrapped, //@w @C12 #fw_not_pre_wrapped
     {
         use self::TaggedLineElement::Str;
 
@@ -691,14 +762,17 @@ impl<T: Clone + Eq + Debug + Default> WrappedBlock<T> {
             self.word,
             self.line.len
         );
+        proof { //@w
+            reveal_strlit(" "); //@w
+            assert forall|s: Seq<char>| (forall|i: int| 0 <= i < s.len() ==> s[i] == ' ') implies sw(s) == s.len() by { lemma_sw_spaces(s); } //@w
+            assert forall|s: Seq<char>| s.len() == self.wslen && (forall|i: int| 0 <= i < s.len() ==> s[i] == ' ') implies s =~= spaces(self.wslen as nat) by {} //@w
+            assert(1 * self.wslen == self.wslen) by (nonlinear_arith); //@w
+            if no_str(self.word.v@) { lemma_no_str_cwid(self.word.v@); } //@w
+            lemma_flat_empty_te::<T>(); //@w
+            reveal(keeps_all); //@w
+        } //@w
+        let ghost c0 = content(self.text@, self.line.v@); //@w
 
-        proof { //@w[
-            reveal_strlit(" ");
-            assert forall|s: Seq<char>| (forall|i: int| 0 <= i < s.len() ==> s[i] == ' ') implies sw(s) == s.len() by { lemma_sw_spaces(s); }
-            assert forall|s: Seq<char>| s.len() == self.wslen && (forall|i: int| 0 <= i < s.len() ==> s[i] == ' ') implies s =~= spaces(self.wslen as nat) by {}
-            assert(1 * self.wslen == self.wslen) by (nonlinear_arith);
-            if no_str(self.word.v@) { lemma_no_str_cwid(self.word.v@); }
-        } //@w]
         if !self.word.is_empty() {
             self.pre_wrapped = false;
             let space_in_line = self.width - self.line.len;
@@ -706,14 +780,22 @@ impl<T: Clone + Eq + Debug + Default> WrappedBlock<T> {
             if space_needed <= space_in_line {
                 html_trace!("Got enough space");
                 if self.wslen > 0 {
+                    let ghost va = self.line.v@; //@w
+                    let ghost sp_tag = self.spacetag.unwrap(); //@w
                     self.line.push(Str(TaggedString {
                         s: " ".repeat(self.wslen),
                         tag: self.spacetag.take().unwrap(),
                     }));
+                    proof { //@w[
+                        lemma_ns_spaces(self.wslen as nat, sp_tag);
+                        lemma_content_append(self.text@, va, self.line.v@, flat_str(spaces(self.wslen as nat), sp_tag));
+                    } //@w]
                     self.wslen = 0;
                 }
 
+                let ghost vb = self.line.v@; //@w
                 self.line.consume(&mut self.word);
+                proof { lemma_content_append(self.text@, vb, self.line.v@, flat(old(self).word.v@)); } //@w
                 html_trace!("linelen increased by wordlen to {}", self.line.len);
             } else {
                 html_trace!("Not enough space");
@@ -725,8 +807,14 @@ impl<T: Clone + Eq + Debug + Default> WrappedBlock<T> {
                         // Skip the whitespace
                         self.wslen -= space_in_line;
                     } else if self.wslen > 0 {
+                        let ghost vc = self.line.v@; //@w
+                        let ghost tagc = self.spacetag.unwrap(); //@w
                         self.line
                             .push_ws(self.wslen, &self.spacetag.take().unwrap());
+                        proof { //@w[
+                            lemma_ns_spaces(self.wslen as nat, tagc);
+                            lemma_content_append(self.text@, vc, self.line.v@, flat_str(spaces(self.wslen as nat), tagc));
+                        } //@w]
                         self.wslen = 0;
                     }
                 } else {
@@ -743,20 +831,25 @@ impl<T: Clone + Eq + Debug + Default> WrappedBlock<T> {
 
                 // Write any remaining whitespace
                 while self.wslen > 0
-                    invariant //@w[
-                        self.inv(), tag_ok::<T>(), self.width >= 1, self.frame(old(self)),
-                        self.wordlen == old(self).wordlen, self.word == old(self).word, self.wslen <= old(self).wslen,
-                        self.wslen > 0 ==> self.line.len == 0,
-                        self.text@.len() >= old(self).text@.len() + (if !no_str(old(self).line.v@) { 1int } else { 0int }),
-                        self.text@.take(old(self).text@.len() as int) =~= old(self).text@,
-                        ws_mode.do_wrap_spec() && !no_str(old(self).line.v@) ==> self.text@[old(self).text@.len() as int].len == (if old(self).pad_blocks { old(self).width } else { old(self).line.len }),
-                        self.pre_wrapped == (ws_mode == WhiteSpace::Pre),
-                        ws_mode.do_wrap_spec() ==> self.wslen == 0,
-                    //@w]
-                    decreases self.wslen                                                             //@w
+                    invariant //@w
+                        self.inv(), tag_ok::<T>(), self.width >= 1, self.frame(old(self)), //@w
+                        self.wordlen == old(self).wordlen, self.word == old(self).word, self.wslen <= old(self).wslen, //@w
+                        self.wslen > 0 ==> self.line.len == 0, //@w
+                        self.text@.len() >= old(self).text@.len() + (if !no_str(old(self).line.v@) { 1int } else { 0int }), //@w
+                        self.text@.take(old(self).text@.len() as int) =~= old(self).text@, //@w
+                        ws_mode.do_wrap_spec() && !no_str(old(self).line.v@) ==> self.text@[old(self).text@.len() as int].len == (if old(self).pad_blocks { old(self).width } else { old(self).line.len }), //@w
+                        self.pre_wrapped == (ws_mode == WhiteSpace::Pre), //@w
+                        ws_mode.do_wrap_spec() ==> self.wslen == 0, //@w
+                        content(self.text@, self.line.v@) =~= c0, //@w @C03 #fw_ws_loop_keeps_content
+                    decreases self.wslen //@w
                 {
                     let to_copy = self.wslen.min(self.width);
+                    let ghost vd = self.line.v@; //@w
                     self.line.push_ws(to_copy, self.spacetag.as_ref().unwrap());
+                    proof { //@w[
+                        lemma_ns_spaces(to_copy as nat, self.spacetag.unwrap());
+                        lemma_content_append(self.text@, vd, self.line.v@, flat_str(spaces(to_copy as nat), self.spacetag.unwrap()));
+                    } //@w]
                     if to_copy == self.width {
                         self.flush_line();
                     }
@@ -784,7 +877,7 @@ impl<T: Clone + Eq + Debug + Default> WrappedBlock<T> {
 //@sub /piece\.s\[bpos\.\.\]\.into\(\)/ ==> str_from(&piece.s, bpos)
 //@auto C01 C02
     #[verifier::loop_isolation(false)] //@w
-    #[verifier::rlimit(60)] //@w
+    #[verifier::rlimit(150)] //@w
     fn flush_word_hard_wrap(&mut self) -> (r: Result<()>)
         requires old(self).inv(), tag_ok::<T>(), //@w
         ensures //@w
@@ -798,80 +891,94 @@ impl<T: Clone + Eq + Debug + Default> WrappedBlock<T> {
             final(self).text@.len() >= old(self).text@.len(), //@w @C03 #hw_text_grows
             final(self).text@.take(old(self).text@.len() as int) =~= old(self).text@, //@w @C03 #hw_keeps_emitted_lines
             old(self).allow_overflow ==> r.is_ok(), //@w @C11 #hw_overflow_ok
+            // nothing of the word is lost, duplicated or reordered by the hard wrap: text pieces AND fragment markers (C03, C14) //@w
+            r.is_ok() ==> content(final(self).text@, final(self).line.v@) =~= content(old(self).text@, old(self).line.v@) + ns(flat(old(self).word.v@)), //@w @C03 @C14 #hw_keeps_content
     {
-        hide(sw); hide(off); hide(cidx); hide(is_boundary); hide(flat); hide(flat_str); hide(flat_elt); hide(spaces); hide(tag_ok); //@w
+        hide(sw); hide(off); hide(cidx); hide(is_boundary); hide(flat); hide(flat_str); hide(spaces); hide(tag_ok); hide(ns); //@w
         use self::TaggedLineElement::Str;
 
         let mut lineleft = self.width - self.line.len;
         let items = self.word.remove_items();
+        let ghost c0 = content(self.text@, self.line.v@); //@w
+        proof { assert forall|a: &T, b: T| call_ensures(T::clone, (a,), b) implies *a == b by { lemma_clone_is_copy(a, b); } } //@w
+        proof { assert(items@.take(0) =~= Seq::<TaggedLineElement<T>>::empty()); lemma_flat_empty_te::<T>(); } //@w
         for element in it: items
-            invariant                                                                                //@w
+            invariant //@w
                 self.inv_nw(), tag_ok::<T>(), //@w
                 lineleft == self.width - self.line.len, //@w @C02 @C04 #hw_lineleft
                 self.frame(old(self)), self.spacetag == old(self).spacetag, self.pre_wrapped == old(self).pre_wrapped, //@w
                 self.word.v@.len() == 0, self.word.len == 0, self.wslen == old(self).wslen, self.wordlen == old(self).wordlen, //@w
                 self.text@.len() >= old(self).text@.len(), self.text@.take(old(self).text@.len() as int) =~= old(self).text@, //@w
                 all_some(items@), it.history@.len() == it.index@, it.seq() == items@, cwid(items@) <= 0x4000_0000_0000_0000, //@w
+                content(self.text@, self.line.v@) =~= c0 + ns(flat(items@.take(it.index@))), //@w @C03 @C14 #hw_content_so_far
         {
-            proof { lemma_cwid_ge(items@, it.index@); }                                              //@w
-            assert(element == items@[it.index@]);                                                    //@w
-            assert(elt_some(element));                                                               //@w
+            proof { lemma_cwid_ge(items@, it.index@); } //@w
+            assert(element == items@[it.index@]); //@w
+            assert(elt_some(element)); //@w
+            let ghost cpre = content(self.text@, self.line.v@); //@w
+            proof { //@w
+                let k = it.index@; //@w
+                assert(items@.take(k + 1) =~= items@.take(k).push(items@[k])); //@w
+                lemma_flat_push(items@.take(k), items@[k]); //@w
+                lemma_ns_concat(flat(items@.take(k)), flat_elt(items@[k])); //@w
+            } //@w
             if let Str(piece) = element {
                 let w = piece.width();
                 let mut wpos = 0; // Width of already-copied pieces
                 let mut bpos = 0; // Byte position of already-copied pieces
+                let ghost chars = piece.s@; //@w
+                let ghost mut cpos: int = 0; //@w
+                proof { assert(chars.take(0) =~= Seq::<char>::empty()); lemma_off_base(chars); lemma_flat_str_empty(piece.tag); lemma_ns_empty::<T>(); } //@w
                                   //
-                let ghost chars = piece.s@;                                                          //@w
-                let ghost mut cpos: int = 0;                                                         //@w
-                proof { assert(chars.take(0) =~= Seq::<char>::empty()); lemma_off_base(chars); }     //@w
                 while w - wpos > lineleft
-                    invariant                                                                        //@w
-                        0 <= cpos <= chars.len(), chars == piece.s@, bpos == off(chars, cpos),       //@w
+                    invariant //@w
+                        0 <= cpos <= chars.len(), chars == piece.s@, bpos == off(chars, cpos), //@w
                         wpos == sw(chars.take(cpos)), w == sw(chars), wpos <= w, w <= 0x4000_0000_0000_0000, //@w
-                        forall|k: int| 0 <= k < chars.len() ==> cw(#[trigger] chars[k]).is_some(),   //@w
+                        forall|k: int| 0 <= k < chars.len() ==> cw(#[trigger] chars[k]).is_some(), //@w
                         self.inv_nw(), tag_ok::<T>(), //@w
                         lineleft == self.width - self.line.len, //@w @C02 @C04 #hw_lineleft_inner
                         self.frame(old(self)), self.spacetag == old(self).spacetag, self.pre_wrapped == old(self).pre_wrapped, //@w
                         self.word.v@.len() == 0, self.word.len == 0, self.wslen == old(self).wslen, self.wordlen == old(self).wordlen, //@w
                         self.text@.len() >= old(self).text@.len(), self.text@.take(old(self).text@.len() as int) =~= old(self).text@, //@w
-                    decreases chars.len() - cpos, self.line.len,                                     //@w
+                        content(self.text@, self.line.v@) =~= cpre + ns(flat_str(chars.take(cpos), piece.tag)), //@w @C03 #hw_piece_content_so_far
+                    decreases chars.len() - cpos, self.line.len, //@w
                 {
                     let mut split_idx = 0;
-                    proof { lemma_split(chars, cpos, 0, chars.skip(cpos)); }                         //@w
+                    proof { lemma_split(chars, cpos, 0, chars.skip(cpos)); } //@w
                     let tail = str_from(&piece.s, bpos);
                     let ci = char_indices_vec(&tail);
-                    let ghost ll0 = lineleft;                                                        //@w
-                    let ghost wpos0 = wpos;                                                          //@w
-                    let ghost mut kb: int = 0;                                                       //@w
-                    let ghost mut ovf: bool = false;                                                 //@w
-                    proof {                                                                          //@w
-                        assert(tail@ == chars.skip(cpos));                                           //@w
-                        assert(tail@.take(0) =~= Seq::<char>::empty());                              //@w
-                    }                                                                                //@w
+                    let ghost ll0 = lineleft; //@w
+                    let ghost wpos0 = wpos; //@w
+                    let ghost mut kb: int = 0; //@w
+                    let ghost mut ovf: bool = false; //@w
+                    proof { //@w
+                        assert(tail@ == chars.skip(cpos)); //@w
+                        assert(tail@.take(0) =~= Seq::<char>::empty()); //@w
+                    } //@w
                     for k in 0..ci.len()
-                        invariant_except_break                                                       //@w
-                            split_idx == 0, !ovf, (k as int) < tail@.len(),                          //@w
+                        invariant_except_break //@w
+                            split_idx == 0, !ovf, (k as int) < tail@.len(), //@w
                             lineleft == ll0 - sw(tail@.take(k as int)), wpos == wpos0 + sw(tail@.take(k as int)), //@w
-                        invariant                                                                    //@w
-                            tail@ == chars.skip(cpos), ci@.len() == tail@.len(),                     //@w
+                        invariant //@w
+                            tail@ == chars.skip(cpos), ci@.len() == tail@.len(), //@w
                             forall|j: int| 0 <= j < tail@.len() ==> (#[trigger] ci@[j]).0 == off(tail@, j) && ci@[j].1 == tail@[j], //@w
                             forall|j: int| 0 <= j < tail@.len() ==> cw(#[trigger] tail@[j]).is_some(), //@w
                             0 <= cpos <= chars.len(), ll0 == self.width - self.line.len, sw(tail@) == w - wpos0, w - wpos0 > ll0, //@w
-                            self.inv_nw(), wpos0 <= w, w <= 0x4000_0000_0000_0000,                   //@w
-                        ensures                                                                      //@w
+                            self.inv_nw(), wpos0 <= w, w <= 0x4000_0000_0000_0000, //@w
+                        ensures //@w
                             0 <= kb <= tail@.len(), split_idx == off(tail@, kb), wpos == wpos0 + sw(tail@.take(kb)), //@w
-                            !ovf ==> sw(tail@.take(kb)) <= ll0 && (kb >= 1 || self.line.len > 0),    //@w
+                            !ovf ==> sw(tail@.take(kb)) <= ll0 && (kb >= 1 || self.line.len > 0), //@w
                             ovf ==> kb == 1 && self.allow_overflow && self.line.len == 0 && sw(tail@.take(1)) <= 2, //@w
                     {
-                        let (idx, c) = ci[k];                                                        //@w
+                        let (idx, c) = ci[k]; //@w
                         let c_w = UnicodeWidthChar::width(c).unwrap();
-                        proof { lemma_sw_take_succ(tail@, k as int); }                               //@w
+                        proof { lemma_sw_take_succ(tail@, k as int); } //@w
                         if c_w <= lineleft {
                             lineleft -= c_w;
                             wpos += c_w;
-                            proof {                                                                  //@w
+                            proof { //@w
                                 if k + 1 == tail@.len() { assert(tail@.take(k as int + 1) =~= tail@); assert(false); } //@w
-                            }                                                                        //@w
+                            } //@w
                         } else {
                             // Check if we've made no progress, for example
                             // if the first character is 2 cells wide and we
@@ -880,60 +987,98 @@ impl<T: Clone + Eq + Debug + Default> WrappedBlock<T> {
                                 if self.allow_overflow {
                                     split_idx = c.len_utf8();
                                     wpos += c_w;
-                                    proof {                                                          //@w
-                                        assert(call_ensures(char::len_utf8, (c,), split_idx));       //@w
-                                        if k > 0 { lemma_off_mono(tail@, 0, k as int); }             //@w
-                                        kb = 1; ovf = true;                                          //@w
-                                        lemma_off_base(tail@);                                       //@w
+                                    proof { //@w
+                                        assert(call_ensures(char::len_utf8, (c,), split_idx)); //@w
+                                        if k > 0 { lemma_off_mono(tail@, 0, k as int); } //@w
+                                        kb = 1; ovf = true; //@w
+                                        lemma_off_base(tail@); //@w
                                         assert(sw(tail@.take(1)) <= 2) by { reveal(sw); lemma_sw_take_succ(tail@, 0); assert(tail@.take(0) =~= Seq::<char>::empty()); } //@w
-                                    }                                                                //@w
+                                    } //@w
                                     break;
                                 } else {
                                     return Err(TooNarrow);
                                 }
                             }
                             split_idx = idx;
-                            proof {                                                                  //@w
-                                kb = k as int;                                                       //@w
-                                if k == 0 { assert(idx == 0); }                                      //@w
-                            }                                                                        //@w
+                            proof { //@w
+                                kb = k as int; //@w
+                                if k == 0 { assert(idx == 0); } //@w
+                            } //@w
                             break;
                         }
                     }
-                    proof {                                                                          //@w
-                        assert(0 <= kb <= tail@.len());                                              //@w
-                        assert(split_idx == off(tail@, kb));                                         //@w
-                        assert(wpos == wpos0 + sw(tail@.take(kb)));                                  //@w
-                        lemma_split(chars, cpos, kb, tail@);                                         //@w
-                        axiom_string_len_bound(chars);                                               //@w
+                    proof { //@w
+                        assert(0 <= kb <= tail@.len()); //@w
+                        assert(split_idx == off(tail@, kb)); //@w
+                        assert(wpos == wpos0 + sw(tail@.take(kb))); //@w
+                        lemma_split(chars, cpos, kb, tail@); //@w
+                        axiom_string_len_bound(chars); //@w
                         if ovf { lemma_sw_take_succ(tail@, 0); assert(tail@.take(0) =~= Seq::<char>::empty()); } //@w
-                    }                                                                                //@w
+                    } //@w
+                    let ghost v0 = self.line.v@; //@w
+                    let ghost t0 = self.text@; //@w
                     self.line.push(Str(TaggedString {
                         s: str_range(&piece.s, bpos, bpos + split_idx),
                         tag: piece.tag.clone(),
                     }));
                     bpos += split_idx;
-                    proof { cpos = cpos + kb; }                                                      //@w
+                    proof { //@w
+                        let sub = chars.subrange(cpos, cpos + kb); //@w
+                        lemma_piece_pushed(t0, v0, self.line.v@, sub, piece.tag); //@w
+                        assert(chars.take(cpos + kb) =~= chars.take(cpos) + sub); //@w
+                        lemma_flat_str_concat(chars.take(cpos), sub, piece.tag); //@w
+                        lemma_ns_concat(flat_str(chars.take(cpos), piece.tag), flat_str(sub, piece.tag)); //@w
+                    } //@w
+                    proof { cpos = cpos + kb; } //@w
                     self.force_flush_line();
                     lineleft = self.width;
-                }                                                                                    //@w
-                proof {                                                                              //@w
-                    lemma_split(chars, cpos, 0, chars.skip(cpos));                                   //@w
-                    if cpos > 0 { lemma_off_mono(chars, 0, cpos); }                                  //@w
-                    assert(chars.take(0) =~= Seq::<char>::empty());                                  //@w
+                } //@w
+                proof { //@w
+                    lemma_split(chars, cpos, 0, chars.skip(cpos)); //@w
+                    if cpos > 0 { lemma_off_mono(chars, 0, cpos); } //@w
+                    assert(chars.take(0) =~= Seq::<char>::empty()); //@w
                 }
+                let ghost v1 = self.line.v@; //@w
+                let ghost t1 = self.text@; //@w
                 if bpos == 0 {
                     self.line.push(Str(piece));
                     lineleft -= w;
+                    proof { //@w
+                        assert(cpos == 0); //@w
+                        lemma_piece_pushed(t1, v1, self.line.v@, chars, piece.tag); //@w
+                    } //@w
                 } else if bpos < piece.s.len() {
                     self.line.push(Str(TaggedString {
                         s: str_from(&piece.s, bpos),
                         tag: piece.tag,
                     }));
                     lineleft -= w.saturating_sub(wpos);
+                    proof { //@w
+                        let sub = chars.skip(cpos); //@w
+                        lemma_piece_pushed(t1, v1, self.line.v@, sub, piece.tag); //@w
+                        assert(chars =~= chars.take(cpos) + sub); //@w
+                        lemma_flat_str_concat(chars.take(cpos), sub, piece.tag); //@w
+                        lemma_ns_concat(flat_str(chars.take(cpos), piece.tag), flat_str(sub, piece.tag)); //@w
+                    } //@w
                 }
+                else { //@w
+                    proof { //@w
+                        // every byte of the piece has been emitted: cpos is the end of the string //@w
+                        lemma_off_end(chars, cpos); //@w
+                        assert(chars.take(cpos) =~= chars); //@w
+                    } //@w
+                } //@w
+                assert(content(self.text@, self.line.v@) =~= cpre + ns(flat_elt(items@[it.index@]))); //@w @C03 #hw_piece_kept
+            } else {
+                // Keep zero-width markers (fragment starts) with the text
+                // which follows them.
+                let ghost v2 = self.line.v@; //@w
+                let ghost t2 = self.text@; //@w
+                self.line.push(element);
+                proof { lemma_content_append(t2, v2, self.line.v@, flat_elt(items@[it.index@])); } //@w
             }
         }
+        proof { assert(items@.take(items@.len() as int) =~= items@); } //@w
         Ok(())
     }
 //@end
@@ -947,6 +1092,7 @@ impl<T: Clone + Eq + Debug + Default> WrappedBlock<T> {
             final(self).inv_fit(), //@w @C02 #fl_fit
             final(self).line.len == 0, //@w @C02 #fl_line_len0
             no_str(final(self).line.v@), //@w @C04 #fl_line_no_text
+            content(final(self).text@, final(self).line.v@) =~= content(old(self).text@, old(self).line.v@), //@w @C03 @C14 #fl_keeps_content
             final(self).frame(old(self)), //@w @C02 @C15 #fl_frame
             final(self).wslen == old(self).wslen, final(self).wordlen == old(self).wordlen, final(self).word == old(self).word, //@w @C03 #fl_keeps_word
             final(self).spacetag == old(self).spacetag, final(self).pre_wrapped == old(self).pre_wrapped, //@w @C12 #fl_keeps_state
@@ -977,6 +1123,7 @@ impl<T: Clone + Eq + Debug + Default> WrappedBlock<T> {
             final(self).spacetag == old(self).spacetag, final(self).pre_wrapped == old(self).pre_wrapped, //@w @C12 #ffl_keeps_state
             final(self).text@.len() == old(self).text@.len() + 1, //@w @C12 @C04 #ffl_one_line
             final(self).text@.drop_last() == old(self).text@, //@w @C03 #ffl_keeps_text
+            content(final(self).text@, final(self).line.v@) =~= content(old(self).text@, old(self).line.v@), //@w @C03 @C14 #ffl_keeps_content
             final(self).text@.last().len == (if old(self).pad_blocks && old(self).width > old(self).line.len { old(self).width } else { old(self).line.len }), //@w @C15 @C02 #ffl_len_padded
             !old(self).pad_blocks ==> final(self).text@.last() == old(self).line, //@w @C03 @C15 #ffl_line_moved
             old(self).pad_blocks ==> exists|t: T| flat(final(self).text@.last().v@) =~= flat(old(self).line.v@) + #[trigger] flat_str(spaces(padn(old(self).width, old(self).line.len)), t), //@w @C15 @C03 #ffl_pad_only_spaces
@@ -992,8 +1139,13 @@ impl<T: Clone + Eq + Debug + Default> WrappedBlock<T> {
                 &tmp_tag
             };
             tmp_line.pad_to(self.width, tag);
-            proof { assert(flat(tmp_line.v@) =~= flat(old(self).line.v@) + flat_str(spaces(padn(old(self).width, old(self).line.len)), *tag)); } //@w
+            proof { //@w
+                assert(flat(tmp_line.v@) =~= flat(old(self).line.v@) + flat_str(spaces(padn(old(self).width, old(self).line.len)), *tag)); //@w
+                lemma_ns_spaces(padn(old(self).width, old(self).line.len), *tag); //@w
+                lemma_ns_concat(flat(old(self).line.v@), flat_str(spaces(padn(old(self).width, old(self).line.len)), *tag)); //@w
+            } //@w
         }
+        proof { lemma_content_flush(self.text@, tmp_line, old(self).line.v@); assert(self.line.v@ =~= Seq::<TaggedLineElement<T>>::empty()); assert(self.text@ == old(self).text@); } //@w
         self.text.push(tmp_line);
     }
 //@end
@@ -1002,7 +1154,7 @@ impl<T: Clone + Eq + Debug + Default> WrappedBlock<T> {
 //@sub /for c in text\.chars\(\)/ ==> for c in it: text.chars()
 //@auto C01 C02 C12
     #[verifier::loop_isolation(false)] //@w
-    #[verifier::rlimit(80)] //@w
+    #[verifier::rlimit(250)] //@w
     fn add_text(
         &mut self,
         text: &str,
@@ -1023,7 +1175,7 @@ impl<T: Clone + Eq + Debug + Default> WrappedBlock<T> {
             final(self).text@.len() >= old(self).text@.len(), final(self).text@.take(old(self).text@.len() as int) =~= old(self).text@, //@w @C03 #at_keeps_emitted_lines
             final(self).total() <= old(self).total() + 4 * text@.len(), //@w @C01 #at_growth_bound
     {
-        hide(sw); hide(cwid); hide(off); hide(flat); hide(flat_str); hide(flat_elt); hide(spaces); hide(lines_wf); hide(lines_fit); //@w
+        hide(sw); hide(cwid); hide(off); hide(flat); hide(flat_str); hide(flat_elt); hide(spaces); hide(lines_wf); hide(lines_fit); hide(ns); hide(lines_flat); hide(no_str); //@w
         html_trace!("WrappedBlock::add_text({}), {:?}", text, main_tag);
         // We walk character by character.
         // 1. First, build up whitespace columns in self.wslen
@@ -1035,11 +1187,11 @@ impl<T: Clone + Eq + Debug + Default> WrappedBlock<T> {
         //     and continue.
         let mut tag = if self.pre_wrapped { wrap_tag } else { main_tag };
         for c in it: text.chars()
-            invariant                                                                                //@w
+            invariant //@w
                 self.inv(), tag_ok::<T>(), self.frame(old(self)), self.width >= 1, //@w
                 self.wslen + self.wordlen + self.width + self.word.len + 4 * (text@.len() - it.index@) <= 0x4000_0000_0000_0000, //@w
                 self.total() + 4 * (text@.len() - it.index@) <= old(self).total() + 4 * text@.len(), //@w
-                0 <= it.index@ <= text@.len(),                                                       //@w
+                0 <= it.index@ <= text@.len(), //@w
                 self.text@.len() >= old(self).text@.len(), self.text@.take(old(self).text@.len() as int) =~= old(self).text@, //@w
         {
             html_trace!(
@@ -1079,7 +1231,7 @@ impl<T: Clone + Eq + Debug + Default> WrappedBlock<T> {
                             let ghost mut wrapped = false; //@w
                             let ghost pos0 = pos; //@w
                             while pos % tab_stop != 0 || !at_least_one_space
-                                invariant                                                            //@w
+                                invariant //@w
                                     self.inv(), tag_ok::<T>(), self.frame(old(self)), self.width >= 1, //@w
                                     self.text@.len() >= old(self).text@.len(), self.text@.take(old(self).text@.len() as int) =~= old(self).text@, //@w
                                     self.line.len <= pos, pos <= 0x4000_0000_0000_0000, tab_stop == 8, //@w
@@ -1087,17 +1239,17 @@ impl<T: Clone + Eq + Debug + Default> WrappedBlock<T> {
                                     self.wslen == mid.wslen, self.word == mid.word, //@w
                                     self.wslen + self.wordlen + self.width + self.word.len + 4 * (text@.len() - it.index@) <= 0x4000_0000_0000_0000, //@w
                                     self.total() + 4 * (text@.len() - it.index@) <= old(self).total() + 4 * text@.len(), //@w
-                                decreases                                                            //@w
-                                    (if at_least_one_space { 0int } else { 1int }),                  //@w
+                                decreases //@w
+                                    (if at_least_one_space { 0int } else { 1int }), //@w
                                     (if !at_least_one_space && pos >= self.width { 1int } else { 0int }), //@w
-                                    (if pos % 8 == 0 { 0int } else { 8 - pos % 8 }),                 //@w
+                                    (if pos % 8 == 0 { 0int } else { 8 - pos % 8 }), //@w
                             {
                                 if pos >= self.width {
                                     self.flush_line();
                                     pos = 0;
                                     proof { wrapped = true; } //@w
                                 } else {
-                                    proof { axiom_cw_space(); }                                      //@w
+                                    proof { axiom_cw_space(); } //@w
                                     self.line.push_char(' ', tag);
                                     pos += 1;
                                     at_least_one_space = true;
@@ -1179,7 +1331,9 @@ impl<T: Clone + Eq + Debug + Default> WrappedBlock<T> {
             old(self).allow_overflow ==> r.is_ok(), //@w @C11 #flush_overflow_ok
             r.is_ok() ==> final(self).inv_word() && final(self).wordlen == 0 && no_str(final(self).word.v@) && no_str(final(self).line.v@) && final(self).line.len == 0, //@w @C03 @C04 #flush_everything_emitted
             final(self).text@.len() >= old(self).text@.len(), final(self).text@.take(old(self).text@.len() as int) =~= old(self).text@, //@w @C03 #flush_keeps_emitted_lines
+            r.is_ok() ==> keeps_all(old(self).text@, old(self).line.v@, old(self).word.v@, final(self).text@, final(self).line.v@, final(self).word.v@), //@w @C03 @C14 #flush_keeps_content
     {
+        proof { reveal(keeps_all); } //@w
         self.flush_word(WhiteSpace::Normal)?;
         self.flush_line();
         Ok(())
